@@ -117,6 +117,7 @@ def check_property(pid, tier, seed, repo_src, verif, jobs=16, only=None, verbose
     e, results, load_errors = run_contracts(repo_src, verif, spec['sidecars'], select, tier, seed, jobs)
 
     violations, undecided, crashes, kf_lines = [], [], [], []
+    detail = {}
     n_ob = n_dis = 0
     functions = []
     samples = []
@@ -175,6 +176,7 @@ def check_property(pid, tier, seed, repo_src, verif, jobs=16, only=None, verbose
             else:
                 replay['status'] = 'no-failing-input-found'
             json.dump(replay, open(os.path.join(verif, fname), 'w'), indent=1, default=str)
+            detail[key] = o
             if confirmed or rand_fail:
                 violations.append((key, fname, ''))
             elif ledger.get(key, {}).get('status') == 'discharged':
@@ -216,7 +218,8 @@ def check_property(pid, tier, seed, repo_src, verif, jobs=16, only=None, verbose
     # known findings
     remaining = []
     for key, fname, suffix in violations:
-        kf = [f for f in known.get('findings', []) if f.get('property') == pid and f.get('obligation') == key and f.get('status') == 'open']
+        kf = [f for f in known.get('findings', []) if f.get('property') == pid and f.get('obligation') == key and f.get('status') == 'open'
+              and _finding_matches(f, detail.get(key))]
         if kf:
             kf_lines.append(f"KNOWN-FINDING: property={pid} {kf[0]['what']}")
         else:
@@ -268,6 +271,17 @@ def check_property(pid, tier, seed, repo_src, verif, jobs=16, only=None, verbose
         print('UNDECIDED no obligations were generated (vacuous check)')
         return 2
     return 0
+
+
+def _finding_matches(f, o):
+    """A known finding suppresses only the recorded way of failing (DESIGN 3.8)."""
+    m = f.get('match') or {}
+    if not m or o is None:
+        return True
+    ces = o.get('counterexamples', [])
+    if 'raised' in m:
+        return bool(ces) and all(ce.get('raised') == m['raised'] for ce in ces)
+    return True
 
 
 def _leaf_json(v):
